@@ -43,6 +43,19 @@ CLAIMS = {
          "action by action; EpsDelta.tla gives every entry of eps(n), n<=6, and delta(n,p) from the definitions, compared under "
          "adversarial construction orders of the caches.",
     design="5/C05", technique="TLC state-graph exploration of the diagram state machine + replay + state-logging trace validation"),
+ "C06": dict(
+    text="C06_Group.tla is a state machine (object x0, applied operations t*x / t.inverse()*x / (t**k)*x, accumulated matrix); "
+         "TLC checks on every reachable history that cur = Act(acc, x0) for every kind (point, line, plane, 3D line, quadric, dual "
+         "quadric, segment, polygon, polyhedron), the kind is preserved, the cached supporting line/plane is the image, and the "
+         "power law; every history is replayed on real objects sequentially, through apply(), as a composite transformation, on "
+         "collections and through TransformationCollection.",
+    design="5/C06", technique="TLC exploration of call histories with a group-action invariant + replay of every history"),
+ "C07": dict(
+    text="C07_Invariance.tla enumerates (configuration, matrix) pairs: all join/meet families on lattice classes incl. dependent and "
+         "skew ones, incidence pairs, lattice points on/off quadrics with their polars, four collinear points by parameters; TLC "
+         "certifies that the constructive action (cofactor matrix on hyperplanes, adj^T Q adj on quadrics) commutes with join/meet "
+         "and preserves incidence/tangency/cross ratio; geometer is replayed on both sides of each equation.",
+    design="5/C07", technique="TLC enumeration with commutation invariants + replay of both sides in geometer"),
 }
 
 checks = []
